@@ -18,16 +18,16 @@ C = {
    "All DFAs with <=2 states over 2 byte classes x all sound hint assignments, sampled/random larger DFAs with weakened hints, shipped automata and combinators (incl. Levenshtein, regex-automata DFAs) x FST sets x bound combinations; results, reported states and every hooked stack frame are compared with an independent run of the automaton.",
    "Generated automata obey the contract by construction (sound hints proven on the explicit graph, no accept_eof).", "DESIGN.md#c04"),
  "C05": (True, "exploration", "reference-model monitor: set algebra on model sets incl. per-key (index,value) multisets",
-   "All k-tuples (k<=4) of subsets of a small universe x 4 operations x raw/map/set OpBuilder APIs with rotated stream kinds (FST, range, search, user stream, same FST twice), sampled larger k, random large maps, and is_disjoint/is_subset/is_superset on all pairs.",
+   "All k-tuples (k<=4) of subsets of a small universe x 4 operations x raw/map/set OpBuilder APIs with rotated stream kinds (FST, range, search, user stream, same FST twice), sampled larger k (up to 13 streams), tuples behind a 70-byte common prefix, run-structured tuples (solo runs of 1..100 keys ended by shared keys under smaller/equal/larger values), random large maps, and is_disjoint/is_subset/is_superset on all pairs.",
    "IndexedValue order within a key is unspecified and compared as a sorted multiset.", "DESIGN.md#c05"),
  "C06": (True, "exploration", "sequential-model monitor over exhaustive short call histories and random long ones",
-   "All 9331 call sequences of length <=5 over 6 keys x 4 step-wise front ends and 10 bulk front ends: each call result (variant and payload), bytes_written stability on rejection, and the finished content are compared with a 10-line model.",
+   "All 9331 call sequences of length <=5 over 6 keys x 4 step-wise front ends and 10 bulk front ends: each call result (variant and payload), bytes_written stability on rejection, and the finished content are compared with a 10-line model; every sequence is additionally replayed on ONE builder under every segmentation into single inserts and bulk calls, so calls following a bulk call that stopped at a rejection are judged too.",
    "Mixed add/insert on one raw builder is outside the statement.", "DESIGN.md#c06"),
  "C07": (True, "fault_enumeration", "event-log monitor on instrumented io::Write sinks: acceptance-schedule enumeration, byte equality with in-memory build, bytes_written vs accepted counter",
-   "For each FST every single-short-write position, every single-Interrupted position, caps 1..16, scripts, random schedules and container sinks; sink bytes must equal the in-memory build, reopen, verify and carry the reference CRC; bytes_written() is compared with the sink's accepted-byte counter after every call.",
+   "For each FST every single-short-write position, every single-Interrupted position, caps 1..16, scripts, random schedules and container sinks; sink bytes must equal the in-memory build, reopen, verify and carry the reference CRC; bytes_written() is compared with the sink's accepted-byte counter after every call, including the call that fails when a capacity-limited sink fills up in the middle of a logical write.",
    "Sinks follow the io::Write contract.", "DESIGN.md#c07"),
- "C08": (True, "fault_enumeration", "exhaustive single-byte corruption enumeration + bit-wise reference CRC oracle + synthetic-length sweep of the checksum fast path",
-   "Every offset x every other byte value on small FSTs (never 'opens and verifies'), sampled bit flips on corpus FSTs, reference masked CRC-32C on every built FST incl. hostile chunking, and synthetic images of every length 36..4200 covering all slice-by-16 tail lengths.",
+ "C08": (True, "fault_enumeration", "exhaustive single-byte corruption enumeration + bit-wise reference CRC oracle + synthetic-length sweep of the checksum fast path + subprocess monitor of the command line gate `fst verify`",
+   "Every offset x every other byte value on small FSTs (never 'opens and verifies'), sampled bit flips on corpus FSTs, reference masked CRC-32C on every built FST incl. hostile chunking, synthetic images of every length 36..4200 covering all slice-by-16 tail lengths, and `fst verify` (subprocess) over freshly built files and over argument lists in which one file - first, middle or last - is a single-byte mutant.",
    "Multi-byte bursts are not judged (2^-32 collisions are legitimate).", "DESIGN.md#c08"),
  "C09": (True, "exploration", "independent on-disk format decoder + bit-wise reference CRC as runtime oracle over all built artifacts",
    "Every artifact of the shared case pool is parsed by a decoder written from the format description only (never the crate's reader): header, footer, node layouts, backward pointers, exact tiling, root last, checksum, decoded map == inserted map.",
@@ -35,7 +35,7 @@ C = {
  "C10": (True, "exploration", "independent reference encoder for format versions 1-3 (self-checked by the independent decoder) + committed golden files; reader queried against the encoded model",
    "~2400 models x versions {1,2,3} x 2 output distributions/node-form policies, opened in 9 container kinds (Vec, slice, Cow, Box, Arc newtype, mmap, map_data, Map/Set) and put through a full query battery incl. cross-version set operations; 40 golden files; header sweep for the required error classes.",
    "Inputs both too short and of unsupported version may report either error; encoder output is validated by the decoder before use.", "DESIGN.md#c10"),
- "C11": (True, "fault_enumeration", "event-log monitor on fault-injecting sinks: every write-call index x error kinds / zero-length accept / flush failure, directly and through BufWriter",
+ "C11": (True, "fault_enumeration", "event-log monitor on fault-injecting sinks: every write-call index x error kinds (incl. io::Errors with structured payloads) / zero-length accept / flush failure, directly and through BufWriter",
    "The sink logs which builder call was in progress when the injected fault happened; that call must return Err(Io) (no panic, no Ok, no other error); sessions that never reach the fault must deliver and flush every byte.",
    "Interrupted is a retry request (C07); behaviour after an I/O error is not judged.", "DESIGN.md#c11"),
  "C12": (True, "exploration", "hooked premise (cache eviction counter H2) + independent trie/minimal-DFA oracle on the decoded node graph",
@@ -45,7 +45,7 @@ C = {
    "Peak live heap stays below an a-priori constant from geometry/fan-out/key length, does not move by more than 2% between N=10^6 and 10^7 (3*10^7 thorough), nothing is retained after finish; several geometries via hook H1.",
    "Decides the bounded restatement (scales up to 3*10^7), not 'for all N'.", "DESIGN.md#c13"),
  "C14": (True, "exploration", "allocation monitor: counting global allocator around traversals, set operations and lookups at growing N",
-   "Peak heap and allocation COUNT of stream/range/search/set-ops (k up to 8) are independent of N in {10^4,10^5,10^6(,10^7)} and under a fixed small constant; open-over-borrowed/mmap + 10^5 lookups allocate exactly 0 times.",
+   "Peak heap and allocation COUNT of stream/range/search/set-ops (k up to 8) - including operations whose single next() call has to skip ~N candidates (disjoint intersections, cancelling differences, Set relations) - are independent of N in {10^4,10^5,10^6(,10^7)} and under a fixed small constant; open-over-borrowed/mmap + 10^5 lookups allocate exactly 0 times.",
    "Bounded restatement; constants fixed a priori.", "DESIGN.md#c14"),
  "C15": (True, "exploration", "differential monitor: byte equality across API paths, sinks, repeated runs, 16 concurrent threads and child processes",
    "Each sequence is built through up to 25 paths (all front ends, unions of partial FSTs streamed into a builder, sinks) and must be byte-identical; cross-thread and cross-process digests incl. tiny cache geometries where evictions occur.",
@@ -54,7 +54,7 @@ C = {
    "All subsets of {a,b}^<=3 x 6 strictly increasing value shapes (with/without the empty key, zero/non-zero first value), corpora and random monotone maps; every stored value, +-1, extremes and random values through get_key and get_key_into (prefix-preserving).",
    "Non-monotone maps are outside the statement.", "DESIGN.md#c16"),
  "C17": (True, "exploration", "reference-model monitor: scalar-value edit distance oracle over an exhaustive multi-byte alphabet scope",
-   "All q in A^<=3 x d<=2 x all k in A^<=3 over an alphabet with 1-4 byte scalars sharing 1/2/3 lead bytes (1.03M triples), Set::search per (q,d), random wide-Unicode strings, and new_with_limit series (payload, monotonicity, behaviour, state ids).",
+   "All q in A^<=3 x d<=2 x all k in A^<=3 over an alphabet with 1-4 byte scalars sharing 1/2/3 lead bytes (1.03M triples), Set::search per (q,d), random wide-Unicode strings, three further exhaustive boundary alphabets, one automaton with > 65536 states, and new_with_limit series (payload, monotonicity, behaviour, number of distinct reachable states counted through the public interface).",
    "Keys are valid UTF-8.", "DESIGN.md#c17"),
  "C18": (True, "exploration", "reference language algebra: textbook-constructed reference DFA with exact reachability sets vs the real combinators driven byte by byte",
    "~67k expressions (all leaves incl. every <=2-state component DFA with every sound hint assignment, unary/binary/depth-2/3 compositions) x all short strings + a representative of every reference state: is_match == membership, can_match false only in dead states, will_always_match true only in all-accepting states.",
